@@ -5,6 +5,11 @@ HERE = os.path.dirname(os.path.abspath(__file__))
 BASELINE = "cd /repo && /venv/bin/python -m pytest -ra -q -p no:cacheprovider --timeout=900 --continue-on-collection-errors"
 
 CLAIMED = {
+ "C13": {
+  "text": "Deductive: for every extern \"C\" kernel symbol of kernel-specification.yml the real C++ body (clang AST of the working tree, template instantiation per specialization) is checked (a) in lockstep bisimulation against its Python definition: every assigned value, every written index, every branch/loop condition and the error/no-error outcome are proved equal by z3/cvc5 for all argument values under the contract's precondition and all loop iterations (E obligations); (b) against sidecar contracts: array accesses within the stated extents, divisors non-zero, invariants inductive (S/I/F obligations); (c) signature/forwarding obligations (YAML args vs C parameters, wrapper forwards in order). Kernels whose definition cannot be aligned are listed as bounded and only compared with the definition by a differential run of the compiled kernel; kernels with no definition get S/F obligations only.",
+  "ref": "DESIGN.md section 5 (C13), section 2.2",
+  "note": "Trusted: clang's AST, z3/cvc5, the encoding assumptions listed in the evidence (64-bit signed arithmetic mathematical, floats abstract, typed reading of the definitions, no aliasing between pointer parameters). Preconditions (validity of offsets/parents/indexes) are those written in contracts/*.py. Bounded stand-ins are never counted as proved.",
+  "technique": "contract-based deductive verification: self-written VC generator over the clang AST + lockstep equivalence with the YAML definitions, discharged by z3/cvc5; counterexamples replayed on the compiled kernels via ctypes"},
 }
 NA = {
  "C10": "record-field plumbing is Content object-graph and Python broadcasting code with no integer mechanism; no contract within reach of the VC generator can express it and the code cannot be executed here",
